@@ -48,6 +48,8 @@ SPECS = [
     {'name': 'Flags', 'type': 'BOOL', 'length': 5, 'address': [0x104, 2, 1]},
     {'name': 'Motor.Speed', 'type': 'LREAL', 'length': 2, 'address': None},
     {'name': 'U8', 'type': 'USINT', 'length': 6, 'address': None},
+    {'name': 'Setpoint', 'type': 'LREAL', 'length': 1, 'address': None},
+    {'name': 'Ratio', 'type': 'REAL', 'length': 1, 'address': None},
 ]
 DEPTHS = [0, 1, 2, 3, 8, 50]
 MULTIPLES = [0, 90, 250, 500, 4000]
@@ -200,11 +202,19 @@ def model_check(mdl, op, sts, val, fragment):
     raise AssertionError(k)
 
 
+_INITIAL = {}
+
+
 def run_setting(srv, ops, fragment, depth, multiple):
     """-> (results [(status, value)], bundles [(n, route, send, [req ids])], reqids, error)"""
     from cpppo.server.enip import client
-    for s in SPECS:
-        srv.set_values(s['name'], [M.default_value(s['type'])] * s['length'])
+    import os
+    if _INITIAL.get('pid') != os.getpid():      # the simulator's own initial values (their Python types matter for scalars)
+        _INITIAL.clear()
+        _INITIAL['pid'] = os.getpid()
+        _INITIAL['values'] = {s['name']: list(srv.values(s['name'])) for s in SPECS}
+    for name, vals in _INITIAL['values'].items():
+        srv.set_values(name, list(vals))
     cops = [client_op(op, fragment) for op in ops]
     bundles = []
     with client.connector(host=srv.address[0], port=srv.address[1], timeout=10.0) as conn:
